@@ -58,6 +58,13 @@ func (_ dimensionSetter) UpdateProperties(po tabular.PropertyOwner) error {
 		}
 	}
 
+	if len(lines) == 1 {
+		// a single-line item is laid out as wide as it says it is (which is the
+		// measured width unless the item overrides it), so that the padding
+		// brings it to the column width computed from the same number
+		linesWidths[0].W = dims.cellWidth
+	}
+
 	po.SetProperty(propDimensions, dims)
 	po.SetProperty(propLinesWidths, linesWidths)
 	return nil
